@@ -436,7 +436,8 @@ func (in *inst) post(c *astutil.Cursor) bool {
 			switch n.Sel.Name {
 			case "LoadInt64", "StoreInt64", "AddInt64", "LoadInt32", "StoreInt32", "AddInt32", "CompareAndSwapInt64", "CompareAndSwapInt32",
 				"SwapInt64", "SwapInt32", "LoadUint64", "StoreUint64", "AddUint64", "SwapUint64", "CompareAndSwapUint64",
-				"LoadUint32", "StoreUint32", "AddUint32", "SwapUint32", "CompareAndSwapUint32":
+				"LoadUint32", "StoreUint32", "AddUint32", "SwapUint32", "CompareAndSwapUint32",
+				"Int64", "Int32", "Uint64", "Uint32", "Bool": // the last five: the typed atomics
 				in.used = true
 				c.Replace(vs("Atomic" + n.Sel.Name))
 			default:
